@@ -113,6 +113,13 @@ class Builder:
         elif r < 0.80:
             if len(set(cols)) == len(cols):
                 v = self.rnd.choice(VIEWS)
+                if self.owner == "H" and len(cols) > 1 and self.rnd.random() < 0.5:
+                    # the other work registers the view name with the same columns in another order / a subset
+                    sel = list(reversed(cols)) if self.rnd.random() < 0.6 else cols[1:]
+                    dst = self.new()
+                    self.emit({"op": "select", "dst": dst, "src": src, "cols": [{"q": None, "c": c} for c in sel]},
+                              dst, sel, set(inf["aliases"]), inf["lineage"] | {dst})
+                    src, cols = dst, sel
                 self.emit({"op": "view", "src": src, "name": v})
                 self.views[v] = list(cols)
         elif r < 0.88:
@@ -183,3 +190,76 @@ def interleave(rnd: random.Random, p_steps, h_steps, mode: str):
             # remaining H steps wait for P frames that are never bound (P step failed to be emitted) -> drop them
             break
     return out
+
+
+def _reads(st):
+    out = [st.get(k) for k in ("src", "l", "r")]
+    cs = list(st.get("cols") or []) + ([st["col"]] if "col" in st else [])
+    if st.get("on") and st["on"][0] == "expr":
+        cs += st["on"][1:]
+    for c in cs:
+        if isinstance(c, dict) and c["q"] and c["q"][0] == "frame":
+            out.append(c["q"][1])
+    return [x for x in out if x]
+
+
+def creates_first(p_steps):
+    """the same program with its createDataFrame steps moved to the front (they depend on nothing)"""
+    return [s for s in p_steps if s["op"] == "create"] + [s for s in p_steps if s["op"] != "create"]
+
+
+def mirror_history(rnd: random.Random, p_steps):
+    """other work over the SAME source frames with the SAME shape of operations as P, in which the alias names are permuted
+    among the inputs (so that CTE names -- content hashes -- coincide while the alias names point elsewhere)."""
+    names = list(dict.fromkeys(s["name"] for s in p_steps if s["op"] == "alias"))
+    if len(names) < 2:
+        return None
+    perm = names[1:] + names[:1]
+    if rnd.random() < 0.3:
+        rnd.shuffle(perm)
+        if perm == names:
+            perm = names[1:] + names[:1]
+    ren = dict(zip(names, perm))
+    created = {s["dst"] for s in p_steps if s["op"] == "create"}
+
+    def hh(x):
+        return x if x in created else "h" + x[1:]
+
+    def cc(c):
+        q = c["q"]
+        if q and q[0] == "name":
+            q = ["name", ren.get(q[1], q[1])]
+        elif q and q[0] == "frame":
+            q = ["frame", hh(q[1])]
+        return {"q": q, "c": c["c"]}
+    out = []
+    for s in p_steps:
+        if s["op"] in ("create", "view", "sql", "sqltext", "bad"):
+            continue
+        t = dict(s)
+        t["o"] = "H"
+        for k in ("dst", "src", "l", "r"):
+            if k in t:
+                t[k] = hh(t[k])
+        if "name" in t and s["op"] == "alias":
+            t["name"] = ren[t["name"]]
+        if "cols" in t and t["cols"] is not None:
+            t["cols"] = [cc(c) for c in t["cols"]]
+        if "col" in t:
+            t["col"] = cc(t["col"])
+        if t.get("on") and t["on"][0] == "expr":
+            t["on"] = ["expr", cc(t["on"][1]), cc(t["on"][2])]
+        out.append(t)
+    return out
+
+
+def after_reads(p_steps, h_steps):
+    """P's shortest prefix that binds every frame of P that H reads, then H, then the rest of P"""
+    need = {x for st in h_steps for x in _reads(st) if x[0] == "p"}
+    k = 0
+    bound = set()
+    while need - bound and k < len(p_steps):
+        if "dst" in p_steps[k]:
+            bound.add(p_steps[k]["dst"])
+        k += 1
+    return p_steps[:k] + h_steps + p_steps[k:]
